@@ -520,6 +520,24 @@ func (g *gen) packets() {
 				g.cl.add("packet:ack")
 			}
 			g.logf("setRecv %s>%s#%d", s.Name, g.native, seq)
+			// occasionally a long receive history on this path: more than a hundred consecutive receipts and acks
+			// (a relayed path accumulates one per packet; exports must not be truncated at any page size)
+			if rapid.IntRange(0, 19).Draw(t, "bulkReceipts") == 0 && seq < 1<<62 {
+				n := rapid.IntRange(101, 260).Draw(t, "bulkCount")
+				for i := 1; i <= n; i++ {
+					q := seq + uint64(i)
+					bid := fmt.Sprintf("%s#%d", s.Name, q)
+					if g.seenRcv[bid] {
+						continue
+					}
+					g.seenRcv[bid] = true
+					pk.SetPacketReceipt(ctx, s.Name, g.native, q)
+					pk.SetPacketAcknowledgement(ctx, s.Name, g.native, q, packettypes.CommitAcknowledgement([]byte(bid)))
+					g.packetKeys += 2
+				}
+				g.cl.add("packet:bulk_over_100")
+				g.logf("bulk %d receipts+acks %s>%s from #%d", n, s.Name, g.native, seq+1)
+			}
 		case "setSend":
 			// a long send history: next sequence far from 1 with one open commitment (what seq-1 sends and seq-2 acks leave)
 			d := g.clients[rapid.IntRange(0, len(g.clients)-1).Draw(t, "dst")]
